@@ -128,6 +128,30 @@ CLAIMS = {
         'technique': 'CFG guard-dominance + data-dependence + finite '
                      'abstract evaluation + who-may-call (ast)',
     },
+    'C03': {
+        'text': 'Decides the binding structure of the key exchange: every '
+                'value parsed from a kex message in the six handler classes '
+                'flows into a field or argument the exchange hash reads (or '
+                'is the signature/MIC, exemptions named); gex request bytes '
+                'are captured before parsing and p,g appended; the peer '
+                'KEXINIT is stored verbatim after check_end() in the peer-role '
+                'field, the own one is the object sent; version strings are '
+                'stored as slices of the received line (one CR removed) and '
+                'as sent; hash input order is the RFC\'s; client-side '
+                'send_newkeys is dominated by key.verify(H, sig) with H from '
+                '_compute_hash and the key from validate_server_host_key(K_S) '
+                'or a checked GSS context; 1 <= e,f < p dominates the '
+                'exponentiation, EC/PQ ValueError converted; _choose_alg is '
+                'evaluated over abstract list pairs for both roles (first '
+                'client preference) and all seven call sites pass (own, peer) '
+                'lists of the matching direction.',
+        'note': TB + 'not decided: that two honest ends derive equal H/keys '
+                '(arithmetic); effects of arbitrary in-flight edits beyond '
+                'these necessary conditions.',
+        'technique': 'def-use / data-dependence to hash sinks, CFG '
+                     'guard-dominance, update-sequence extraction, finite '
+                     'abstract evaluation of _choose_alg (ast)',
+    },
 }
 
 PENDING = 'check not built yet in this session (planned, see DESIGN.md section 5)'
